@@ -1,6 +1,7 @@
 /- Drv/C06.lean — driver handler for property C06 (line protocol; core-only imports). -/
 import FunsorVerif.Core.Sexp
 import FunsorVerif.Model.C06
+import FunsorVerif.Model.C06Terms
 namespace FV.Drv.C06
 open FV FV.C06
 
@@ -90,8 +91,46 @@ def parseShapes (s : Sexp) : Option (List (List Nat)) := do
                                             axis rewritten as eager_reduction_tensor does
   C06 eagerbin (batch) (ev1) (ev2)          broadcast of the padded batched data shapes
 -/
+def parseInputs (t : Sexp) : Option Inputs := do
+  let xs ← t.asList?
+  xs.mapM fun
+    | .list [k, d] => do
+        let k ← k.asStr?
+        let d ← parseDom d
+        pure (k, d)
+    | _ => none
+
+def parseTDecl : Sexp → Option TDecl
+  | .list [ins, out, data] => do
+      let ins ← parseInputs ins
+      let out ← parseDom out
+      let data ← data.asNats?
+      pure ⟨ins, out, data⟩
+  | _ => none
+
+def showInputs (a : Inputs) : String :=
+  "(" ++ " ".intercalate (a.map fun p => "(\"" ++ p.1 ++ "\" " ++ showDom p.2 ++ ")") ++ ")"
+
+def showTDecl : Option TDecl → String
+  | none => "none"
+  | some t => "(" ++ showInputs t.inputs ++ " " ++ showDom t.output ++ " " ++ showShape t.data ++ ")"
+
+def showTy : Option (Inputs × Dom) → String
+  | none => "none"
+  | some t => "(" ++ showInputs t.1 ++ " " ++ showDom t.2 ++ ")"
+
 def handle (args : List Sexp) : String :=
   match args with
+  | [.atom "elambda", v, n, t] =>
+    match v.asStr?, n.asNat?, parseTDecl t with
+    | some v, some n, some t =>
+      "ok (" ++ showTy (some (lambdaTy v n t.inputs t.output)) ++ " " ++ showTDecl (eagerLambda v n t) ++ ")"
+    | _, _, _ => "err bad-args"
+  | [.atom "estack", nm, ts] =>
+    match nm.asStr?, ts.asList?.bind (·.mapM parseTDecl) with
+    | some nm, some ts =>
+      "ok (" ++ showTy (stackTy nm (ts.map fun x => (x.inputs, x.output))) ++ " " ++ showTDecl (eagerStack nm ts) ++ ")"
+    | _, _ => "err bad-args"
   | [.atom "fd", rule, opn, ps, ds] =>
     match rule.asStr?, opn.asStr?, parseParams ps, ds.asList?.bind (·.mapM parseDom) with
     | some rule, some opn, some ps, some ds => showR (findDomain rule opn ps ds)
